@@ -504,6 +504,49 @@ func (c *EvalCtx) local(name string) (TVal, bool) {
 			return TVal{Val: v, Type: elem}, true
 		}
 	}
+	// a local that was renamed since the claims were taken: the contract's name is found, by position, among the
+	// locals recorded then; it stands for the local at the same position now, provided the function still has the
+	// same number of named locals with the same types
+	if n == 0 {
+		if old, ok := c.fr.eng.localAliases[funcDisplayName(fn)]; ok {
+			cur := localsOf(fn)
+			same := len(cur) == len(old)
+			for i := 0; same && i < len(cur); i++ {
+				same = cur[i].Type == old[i].Type
+			}
+			if same {
+				k, idx := 0, -1
+				for i, l := range old {
+					if l.Name == base {
+						k++
+						if k == want {
+							idx = i
+						}
+					}
+				}
+				nameTaken := false
+				for _, l := range cur {
+					if l.Name == base {
+						nameTaken = true
+					}
+				}
+				if idx >= 0 && !nameTaken && cur[idx].Name != base {
+					c.fr.assumed[fmt.Sprintf("contract identifier %s of %s taken to be the local %s (same position and type among the function's locals as when the claims were recorded: a renaming)", base, funcDisplayName(fn), cur[idx].Name)] = true
+					cnt := 0
+					for j := 0; j <= idx; j++ {
+						if cur[j].Name == cur[idx].Name {
+							cnt++
+						}
+					}
+					alias := cur[idx].Name
+					if cnt > 1 {
+						alias = fmt.Sprintf("%s#%d", alias, cnt)
+					}
+					return c.local(alias)
+				}
+			}
+		}
+	}
 	// free variables of closures
 	for _, fv := range fn.FreeVars {
 		if fv.Name() == base {
